@@ -168,6 +168,9 @@ func runC03(c *Ctx) {
 	// ---- W2 -----------------------------------------------------------------
 	c.c03Totals(unzip)
 
+	// ---- W2b: the bytes of every extracted entry reach the running total
+	c.c03Accounted(unzip, uzf)
+
 	// ---- W3 -----------------------------------------------------------------
 	c.c03Nested(unzip, nested)
 
@@ -584,4 +587,69 @@ func paramIndexByName(f *ssa.Function, name string) int {
 		}
 	}
 	return -1
+}
+
+// c03Accounted: after an entry has been extracted (unzipZippedFile returned nil) every way round the loop adds to the
+// byte total — the entry's own size or the totals of the nested extraction.
+func (c *Ctx) c03Accounted(unzip, uzf *ssa.Function) {
+	var ex *ssa.Call
+	allInstrs(unzip, func(in ssa.Instruction) {
+		if cl, ok := in.(*ssa.Call); ok && staticCallee(&cl.Call) == uzf {
+			ex = cl
+		}
+	})
+	if ex == nil {
+		return
+	}
+	// the byte total = the counter compared with GetMaxTotalSize
+	var total ssa.Value
+	for _, b := range unzip.Blocks {
+		if ifi, ok := b.Instrs[len(b.Instrs)-1].(*ssa.If); ok {
+			if x, _, ok := limitCmp(ifi, "GetMaxTotalSize"); ok {
+				for _, l := range sources(x, deriveOpts{through: func(n string) bool { return strings.Contains(n, "/safecast.") }}) {
+					if cl, ok := l.(*ssa.Call); ok {
+						if cnt, m := counterOf(&cl.Call); cnt != nil && m == "Load" {
+							total = cnt
+						}
+					}
+				}
+			}
+		}
+	}
+	key := fname(unzip) + "/bytes-accounted"
+	if total == nil {
+		c.violate("W2", key, c.ipos(ex), "no running byte total compared with GetMaxTotalSize()")
+		return
+	}
+	isAdd := func(in ssa.Instruction) bool {
+		cl, ok := in.(*ssa.Call)
+		if !ok {
+			return false
+		}
+		cnt, m := counterOf(&cl.Call)
+		return cnt == total && m == "Add"
+	}
+	hdr := loopHeaderOf(ex)
+	errs := errResultsOf(ex)
+	prune := func(b *ssa.BasicBlock, k int) bool {
+		// only the success side of the extraction matters
+		if ifi, ok := b.Instrs[len(b.Instrs)-1].(*ssa.If); ok && len(errs) > 0 {
+			if x, nilSucc, ok := nilTest(ifi); ok && sameValue(x, errs[0]) {
+				return k != nilSucc
+			}
+		}
+		return false
+	}
+	if hdr == nil {
+		c.undecided("W2", key, c.ipos(ex), "cannot determine the entry loop")
+		return
+	}
+	esc := pathPruned(unzip, ex, isAdd, func(in ssa.Instruction) bool { return in == hdr.Instrs[0] || isReturnOK(unzip, in) }, prune)
+	c.check(esc == nil, "W2", key, c.ipos(ex), "every extracted entry adds its bytes (or its nested totals) to the running total",
+		"after an entry has been written the loop can move on (or return successfully) without adding anything to the byte total: such entries are not bounded by GetMaxTotalSize()")
+}
+
+func isReturnOK(f *ssa.Function, in ssa.Instruction) bool {
+	r, ok := in.(*ssa.Return)
+	return ok && !isErrorExit(f, r)
 }
